@@ -24,8 +24,8 @@ def main():
       overlay[rel] = text.replace(old, new)
       hit += text.count(old)
   if name == '-':
-    for rel in src.files():
-      t = src.text(rel)
+    for rel in src.py_files():
+      t = src.read(rel)
       if old in t and '_test' not in rel:
         overlay[rel] = t.replace(old, new)
         hit += t.count(old)
